@@ -43,6 +43,11 @@ Inductive reason :=
 | OrderFreeUpTo (lemma : string) (note : string)
   (* proved in the props file of the property that owns the model (named theorem), not re-stated here *)
 | OtherProperty (theorem : string)
+  (* the same, where the theorem states the result up to an equivalence (the note says what it forgets) *)
+| OtherPropertyUpTo (theorem : string) (note : string)
+  (* order free by the named lemma UNDER hypotheses that the surrounding code establishes by a guard / invariant that is not
+     modelled here (the note lists them) *)
+| OrderFreeIf (lemma : string) (hypotheses : string)
   (* not a set at this place: the flow-insensitive typing of the audit over-approximates (the note says why) *)
 | FalsePositive (note : string)
   (* not covered by a theorem (unmodelled heuristic).  The members are ints or tuples of ints: their hash is seed free
@@ -104,10 +109,11 @@ Definition allow_list : list (site * reason) := [
   ((f_rings, "_bfs", "pop atoms.pop() #2"), IntHistory rings_note);
   ((f_rings, "_is_condensed_ring", "for for n in common"), OrderFree "filter_set_perm");            (* builds a set by filtering *)
   ((f_rings, "_is_condensed_ring", "call iter(nbrs)"), IntHistory rings_note);
-  ((f_rings, "_is_condensed_ring", "unpack n, m = term"), IntHistory rings_note);
-  ((f_rings, "_is_condensed_ring", "unpack n, m = common"), IntHistory rings_note);
+  ((f_rings, "_is_condensed_ring", "unpack n, m = term"), IntHistory "same expression as in _connected_rings (merged_ring_sym), but that n-m is a bond of both REDUCED rings is not established here");
+  ((f_rings, "_is_condensed_ring", "unpack n, m = common"), IntHistory "same expression as in _connected_rings (merged_ring_sym), but without the guard that n-m is a common bond");
   ((f_rings, "_is_condensed_ring", "call iter(neighbors[child])"), IntHistory rings_note);
-  ((f_rings, "_connected_rings", "unpack n, m = common"), IntHistory rings_note);
+  ((f_rings, "_connected_rings", "unpack n, m = common"),
+     OrderFreeIf "merged_ring_sym" "both rings are duplicate-free spellings of >= 3 atoms, share exactly the two atoms (len(common) == 2) and n-m is a bond of both (the guard `m in ck[n] and m in rk[n]`, symmetric because _ring_adjacency is)");
   ((f_rings, "_rings_filter", "for for c in seen_rings"), OrderFree "lookup_table_perm");           (* builds a dict that is only looked up by key *)
   (* ---- fingerprints ---- *)
   ((f_linear, "LinearFingerprint.linear_fingerprint", "call list(bits)"), OrderFree "index_set_perm");       (* fingerprints[list(bits)] = 1 *)
@@ -204,10 +210,10 @@ Definition allow_list : list (site * reason) := [
   (("chython/containers/cgr.py", "CGRContainer.substructure", "for for n in atoms #2"), IntHistory "atom/bond insertion order of the sub-CGR / the center_atoms tuple follow the int set");
   (("chython/containers/cgr.py", "CGRContainer.augmented_substructure", "for for x in atoms"), OrderFree "set_of_map_perm");
   (* ---- chython/containers/molecule.py ---- *)
-  (("chython/containers/molecule.py", "MoleculeContainer.compose", "for for n in self._atoms.keys() - common"), IntHistory "atom and bond insertion order of the composed CGR follows the int sets (compared after sorting in C15)");
-  (("chython/containers/molecule.py", "MoleculeContainer.compose", "for for n in other._atoms.keys() - common"), IntHistory "atom and bond insertion order of the composed CGR follows the int sets (compared after sorting in C15)");
-  (("chython/containers/molecule.py", "MoleculeContainer.compose", "for for n in common"), IntHistory "atom and bond insertion order of the composed CGR follows the int sets (compared after sorting in C15)");
-  (("chython/containers/molecule.py", "MoleculeContainer.compose", "for for n in common #2"), IntHistory "atom and bond insertion order of the composed CGR follows the int sets (compared after sorting in C15)");
+  (("chython/containers/molecule.py", "MoleculeContainer.compose", "for for n in self._atoms.keys() - common"), OtherPropertyUpTo "C15_compose_order_independent" "the composed CGR is the same dict of dicts; only the insertion order of its atoms and bonds follows the int sets");
+  (("chython/containers/molecule.py", "MoleculeContainer.compose", "for for n in other._atoms.keys() - common"), OtherPropertyUpTo "C15_compose_order_independent" "the composed CGR is the same dict of dicts; only the insertion order of its atoms and bonds follows the int sets");
+  (("chython/containers/molecule.py", "MoleculeContainer.compose", "for for n in common"), OtherPropertyUpTo "C15_compose_order_independent" "the composed CGR is the same dict of dicts; only the insertion order of its atoms and bonds follows the int sets");
+  (("chython/containers/molecule.py", "MoleculeContainer.compose", "for for n in common #2"), OtherPropertyUpTo "C15_compose_order_independent" "the composed CGR is the same dict of dicts; only the insertion order of its atoms and bonds follows the int sets");
   (("chython/containers/molecule.py", "MoleculeContainer._augmented_substructure", "for for x in nodes[-1]"), OrderFree "set_of_map_perm");
   (* ---- chython/containers/reaction.py ---- *)
   (("chython/containers/reaction.py", "ReactionContainer.__hash__", "hash hash(str(self))"), HashOfStr "hash(reaction) is the hash of its canonical string: seed dependent by design of CPython, consumed only by dict/set membership (Reactor dedupes by str(r), not by hash order)");
@@ -240,7 +246,7 @@ Definition known_lemmas : list string :=
   ["group_sizes_perm"; "min_by_perm"; "bfs_level_perm"; "sort_by_perm"; "remove_vertices_perm"; "discard_all_perm"; "components_partition";
    "singleton_enum"; "filter_set_perm"; "lookup_table_perm"; "index_set_perm"; "set_of_map_perm";
    "chains_insertion_order_free"; "ring_mask_perm"; "sorted_str_perm"; "fragments_of_perm";
-   "pointwise_update_perm"; "existsb_perm"; "forallb_perm"; "sorted_ints_perm"; "max_perm"].
+   "pointwise_update_perm"; "existsb_perm"; "forallb_perm"; "sorted_ints_perm"; "max_perm"; "merged_ring_sym"].
 
 Close Scope string_scope.
 
@@ -249,7 +255,7 @@ Definition audit_ok (audit : list site) : bool :=
 Definition allow_tight (audit : list site) : bool :=
   forallb (fun a => existsb (site_eqb (fst a)) audit) allow_list.
 Definition reason_lemma (r : reason) : option string :=
-  match r with OrderFree l | KeyedTieBreak l | OrderFreeUpTo l _ => Some l | _ => None end.
+  match r with OrderFree l | KeyedTieBreak l | OrderFreeUpTo l _ | OrderFreeIf l _ => Some l | _ => None end.
 Definition reasons_known : bool :=
   forallb (fun a => match reason_lemma (snd a) with
                     | Some l => existsb (String.eqb l) known_lemmas
